@@ -96,8 +96,8 @@ def loglik_trace(case, rec):
         return None
 
 
-def run_case(ctx: Ctx, case, terms, metas, tag):
-    recs = X.run_sessions(case)
+def run_case(ctx: Ctx, case, terms, metas, tag, api=None):
+    recs = X.run_sessions(case, api=api)
     for rec in recs:
         if "skipped" in rec:
             ctx.hist("skipped_session", rec["skipped"][:60])
@@ -303,6 +303,8 @@ def run(ctx: Ctx):
                               {"sql_shape": name}, found_input=False)
     except ImportError:
         pass
+    from harness import c03_py
+    c03_py.stage(ctx)
     terms, metas = [], []
     if ctx.replay:
         rp = json.loads(open(ctx.replay).read())
@@ -317,6 +319,9 @@ def run(ctx: Ctx):
         witnesses(ctx, terms, metas)
         prior_variants(ctx)
         rule_case_witness(ctx, terms, metas)
+        if not ctx.quick:
+            from harness import c03_spark
+            c03_spark.run(ctx, terms, metas)
     bad, errs = ctx.eval_cases("C03_x", X.HEADER, terms, "run_case", shard=6, timeout=900)
     for e in errs:
         ctx.obligation("correspondence shard evaluation", False, e)
